@@ -44,4 +44,22 @@ CHECKS["C05"] = {
     "note": "Trusted: mc/ref/typing.py (RFC 2.4.3) checked against the RFC well-typedness table in the self-test; R1 re-checks grammar membership of every reported query. One open known finding (F-C05-1).",
     "technique": T_EXH,
 }
+CHECKS["C09"] = {
+    "text": "Exhaustive over the code space: every Unicode scalar value raw (BMP + plane boundaries in quick, all 1 112 064 in thorough), every \\uXXXX escape 0000-FFFF in lower/upper/mixed hex case, surrogate-pair escapes (8 192 boundary pairs in quick, all 1 048 576 in thorough), \\c for all 128 ASCII c, every truncation of representative escapes and all sequences of <=3 items over a 30-item alphabet of spellings; both quote styles; both positions (name selector, comparison literal). The reference decoder decides 'decodes to s' or 'invalid'; the real code must select exactly member/element s, or raise a JSONPathError. 1.46 M literal x position cases in quick.",
+    "ref": "DESIGN.md section 5, C09",
+    "note": "Trusted: string_literal() of the reference parser; any literal reported is re-checked against the ABNF rule string-literal with the generic engine R1.",
+    "technique": T_EXH,
+}
+CHECKS["C13"] = {
+    "text": "Totality over 1.43 M strings: `$`.T^<=4 token strings (T^<=5 thorough), every single-edit neighbour and every prefix of a 190-query corpus, 16 nesting constructs at every depth 1..32 (balanced and unbalanced), 20 repeatable constructs at lengths 1..1024 characters, 130 extreme-number queries. compile() runs under a 10 s watchdog with the interpreter's default recursion limit; every query that compiles is applied to 47 JSON kinds as root, sole array element and sole object member (4.1 M evaluations). Any outcome other than a value or a JSONPathError (with working str/repr) is a violation.",
+    "ref": "DESIGN.md section 5, C13",
+    "note": "Bounded: strings beyond the enumerated families are not covered; the 1024-character / nesting-32 bound is reached by scaling families, not by enumerating all strings of that size.",
+    "technique": T_EXH,
+}
+CHECKS["C19"] = {
+    "text": "For every rejected string among 1.43 M token strings / single-edit neighbours and ~200 000 variants of broken corpus queries with LF, CRLF, ' LF ' or LF LF inserted at every position, the raised error must carry a token whose index lies in [0, len(query)] and whose query is the query text, and the printed 'line L, column C' must equal the line and 0-based column recomputed from that index. 325 000 rejected multi-line queries per quick run.",
+    "ref": "DESIGN.md section 5, C19",
+    "note": "Column convention (0-based) taken from the repository's own position tests; a lone CR is accepted as a line break or not.",
+    "technique": T_EXH,
+}
 PENDING = {}
